@@ -133,6 +133,29 @@ def check(tier, seed):
             if why:
                 res.violation('C03 oracle: ' + why, {'property': 'C03', 'input': desc, 'implementation_says': impl[:800], 'reason': why}, 'c03-listreuse')
             cases.append(Case('ubx-parser-filter-list-reuse', G.ubx_cmd(None, ops), impl, desc, kind='filter-list-reuse'))
+        # fixed corpus (no random choice): one checksum byte right, the other replaced by a value a sloppy comparison might
+        # accept (00, ff, the other byte, off by one) - exactly one error marker, never a data packet; followed by a good frame
+        fixed = [(6, 1, b''), (6, 1, b'\x01'), (5, 1, b'\x06\x01'), (10, 4, bytes(range(40))), (1, 7, bytes(92)), (6, 0x8b, b'\x00\x01\x00\x00\x01\x00\x52\x40'),
+                 (0x13, 0x60, bytes([1, 0, 0, 6, 0x40, 0, 0, 0])), (6, 8, b'\xe8\x03\x01\x00\x01\x00'), (0xF0, 0, bytes(3)), (1, 0x35, bytes(8 + 12 * 7))]
+        for c, i, pl in fixed:
+            good = G.frame(c, i, pl)
+            a_, b_ = good[-2], good[-1]
+            for name, (x, y) in (('ckb=00', (a_, 0)), ('cka=00', (0, b_)), ('ckb=ff', (a_, 255)), ('cka=ff', (255, b_)), ('swapped', (b_, a_)),
+                                 ('ckb+1', (a_, (b_ + 1) & 255)), ('cka+1', ((a_ + 1) & 255, b_)), ('both=00', (0, 0))):
+                if (x, y) == (a_, b_):
+                    continue
+                s = good[:-2] + bytes([x, y]) + G.frame(c, i, b'\x07')
+                filt = [(c, i)]
+                for cname, parts in (('whole', [s]), ('bytewise', [s[k:k + 1] for k in range(len(s))])):
+                    ops = [('P', q) for q in parts]
+                    impl = G.impl_ubx(filt, ops)
+                    toks = impl.split('q=[')[1].split(']')[0].split() if not impl.startswith('!') else ['!']
+                    exp = ['crc', f'pkt.{c}.{i}.07']
+                    desc = {'stream_hex': C.hexs(s), 'filter': filt, 'kind': 'fixed-checksum-byte/' + name, 'chunking': cname}
+                    if toks != exp or not impl.startswith('rx=1 '):
+                        res.violation('C03: a frame with one wrong checksum byte (' + name + ') did not yield exactly one error marker, or was delivered / counted as data',
+                                      {'property': 'C03', 'input': desc, 'expected': 'rx=1 q=[' + ' '.join(exp) + ']', 'implementation_says': impl[:600]}, 'c03-fixedck|' + name)
+                    cases.append(Case('ubx-parser-fixed-ck', G.ubx_cmd(filt, ops), impl, desc, kind='fixed-ck/' + name))
         res.compare(cases)
         res.oblige('correspondence UbxParser on raw streams (Tie A)', not res.disagreements)
         res.oblige('independent C03 occurrence matcher', not res.violations)
